@@ -733,6 +733,27 @@ fn insert_anchor(block: &mut Block, id: &str, place: &str, anchor: &str, nth: us
             block.stmts.insert(at, marker);
             Ok(())
         }
+        "loopstart" => {
+            // first statement of the body of loop #nth (right after its ordinal marker)
+            struct LS { want: String, marker: Stmt, done: bool }
+            impl VisitMut for LS {
+                fn visit_block_mut(&mut self, b: &mut Block) {
+                    if !self.done {
+                        if let Some(first) = b.stmts.first() {
+                            if norm(first.to_token_stream()) == self.want {
+                                b.stmts.insert(1, self.marker.clone());
+                                self.done = true;
+                                return;
+                            }
+                        }
+                    }
+                    visit_mut::visit_block_mut(self, b);
+                }
+            }
+            let mut ls = LS { want: format!("__vp_loop!({});", nth), marker, done: false };
+            ls.visit_block_mut(block);
+            if ls.done { Ok(()) } else { Err(format!("lost anchor: loop #{} not found (proof {})", nth, id)) }
+        }
         "ret" => {
             // the tail expression is bound first: `{ ..; let __vp_ret = E; <proof>; __vp_ret }`
             let n = block.stmts.len();
